@@ -242,11 +242,24 @@ class Check(PropertyCheck):
                 c = futs[f]
                 res, reads, writes = f.result()
                 self.enum[c.name] = (res, reads, writes)
+        self.wrong_output = []
         for c in cfgs:
             res, reads, writes = self.enum[c.name]
             if res["rc"] != 0 or res["hung"]:
                 enum_bad.append((c, res))
                 continue
+            # the fault-free run (possibly with fragmented reads/writes) must deliver everything
+            try:
+                if c.mode == "compress":
+                    good = bz2.decompress(res["out"]) == c.data
+                elif c.mode == "decompress":
+                    good = res["out"] == bz2.decompress(c.data)
+                else:
+                    good = res["out"] == c.data
+            except Exception:
+                good = False
+            if not good:
+                self.wrong_output.append((c, res))
             for call, lst in (("read", reads), ("write", writes)):
                 ks = list(range(1, len(lst) + 1))
                 light = c.light and not full
@@ -284,14 +297,16 @@ class Check(PropertyCheck):
         big_c = Config("c-rand", "compress", ["-1", "-n", "2"], ("rand", s * 7 + 9, 300000))
         big_d = Config("d-rand", "decompress", ["-d", "-n", "2"], ("bz2rand", s * 7 + 9, 300000))
         big_k = Config("copy-rand", "copy", ["-cdf", "-n", "2"], ("rand", s * 7 + 10, 300000))
+        # which thread's write hits the closed pipe / the size limit is not known beforehand
+        wroles = {"compress": ["writer", "prihdr", "pritrl"], "decompress": ["writer"], "copy": ["writer", "copyhdr"]}
         for c in (big_c, big_d, big_k):
             for lim in (0, 1, 4, 5, 1000, 70000):
                 for disp in ("default", "ignore"):
-                    plans.append((c, {"kind": "closedpipe", "limit": lim, "disp": disp, "role": "writer",
+                    plans.append((c, {"kind": "closedpipe", "limit": lim, "disp": disp, "role": "writer", "roles": wroles[c.mode],
                                       "errno": errno.EPIPE, "ename": "EPIPE", "sig": True}))
             for blocks in (1, 8, 100):
                 for disp in ("default", "ignore"):
-                    plans.append((c, {"kind": "fsize", "blocks": blocks, "disp": disp, "role": "writer",
+                    plans.append((c, {"kind": "fsize", "blocks": blocks, "disp": disp, "role": "writer", "roles": wroles[c.mode],
                                       "errno": errno.EFBIG, "ename": "EFBIG", "sig": True}))
             plans.append((c, {"kind": "devfull", "disp": "default",
                               "role": {"compress": "prihdr", "decompress": "writer", "copy": "copyhdr"}[c.mode],
@@ -322,8 +337,10 @@ class Check(PropertyCheck):
     def model_lines(self, plans):
         r = self.rng
         lines = []
+        self.line_of = []           # plan index -> indices of its model lines
         for c, p in plans:
-            role = p["role"] if p["role"] != "close" else "writer"
+          idxs = []
+          for role in (p.get("roles") or [p["role"] if p["role"] != "close" else "writer"]):
             nothers = r.below(6)
             toks = []
             for _ in range(r.below(24)):
@@ -336,9 +353,11 @@ class Check(PropertyCheck):
                     toks.append(r.choice(["O", "D", "C"]))
                 elif nothers:
                     toks.append("x%d:%s" % (r.below(nothers), r.choice("rcie")))
+            idxs.append(len(lines))
             lines.append("%s %d %d %d %d %d %s" % (role, p["errno"], 1 if p.get("sig") else 0,
                                                    0 if p.get("disp") == "ignore" else 1, r.below(2), nothers,
                                                    ",".join(toks) or "-"))
+          self.line_of.append(idxs)
         return lines
 
     def run_model(self, lines):
@@ -386,7 +405,9 @@ class Check(PropertyCheck):
         nontriv = set()
         dis = []
         skipped = 0
-        for (c, p), res, m, line in zip(plans, results, model, lines):
+        for pi, ((c, p), res) in enumerate(zip(plans, results)):
+            ms = [model[j] for j in self.line_of[pi]]
+            m, line = ms[0], lines[self.line_of[pi][0]]
             if res is None:
                 skipped += 1
                 continue
@@ -406,15 +427,19 @@ class Check(PropertyCheck):
                 dis.append((c, p, res, "role assignment: injected call ran in the %s thread, plan says role %s" % (
                     "main" if res["inj_main"] else "a sub", p["role"]), line))
                 continue
-            if m["RES"] != m["PRED"] and m["RES"] != "NONE":
-                dis.append((c, p, res, "model run %s differs from its own prediction %s" % (m["RES"], m["PRED"]), line))
-            if obs != m["RES"] or nlines != int(m["PRINTED"]):
-                dis.append((c, p, res, "implementation %s with %d stderr line(s); model %s with %s" % (
-                    obs, nlines, m["RES"], m["PRINTED"]), line))
+            for mm in ms:
+                if mm["RES"] != mm["PRED"] and mm["RES"] != "NONE":
+                    dis.append((c, p, res, "model run %s differs from its own prediction %s" % (mm["RES"], mm["PRED"]), line))
+            if not any(obs == mm["RES"] and nlines == int(mm["PRINTED"]) for mm in ms):
+                dis.append((c, p, res, "implementation %s with %d stderr line(s); model %s" % (
+                    obs, nlines, " or ".join(sorted(set("%s with %s" % (mm["RES"], mm["PRINTED"]) for mm in ms)))), line))
         self.disagreements = dis
         for c, p, res, what, line in dis[:6]:
             self.broken.append(Broken("correspondence", "%s %s: %s" % (c.name, self.plan_str(p), what),
                                       "model case `%s`; stderr=%r" % (line, res["err"][:200])))
+        for c, res in getattr(self, "wrong_output", []):
+            self.broken.append(Broken("correspondence", "fault-free run of %s delivers wrong or incomplete output" % c.name,
+                                      "FI_SHORT=%s stdout %d bytes" % (c.short, len(res["out"]))))
         for c, res in self.enum_bad:
             self.broken.append(Broken("correspondence", "fault-free enumeration run of %s failed" % c.name,
                                       "rc=%s sig=%s hung=%s stderr=%r" % (res["rc"], res["sig"], res["hung"], res["err"][:200])))
@@ -504,6 +529,14 @@ class Check(PropertyCheck):
             self.sweep(full=False)
         viols = []
         seen = set()
+        for c, res in getattr(self, "wrong_output", []):
+            key = "lost-data:%s:%s" % (c.mode, "short-io" if c.short else "plain")
+            if key not in seen:
+                seen.add(key)
+                viols.append(Violation(key, "%s: exit status 0 but stdout (%d bytes) is not the complete result%s" % (
+                    c.name, len(res["out"]), " with reads/writes cut to %d bytes (short writes ignored?)" % c.short if c.short else ""),
+                    {"config": c.as_dict(), "how": "LD_PRELOAD=%s %s %s %s < INPUT   # INPUT = gen_data%r" % (
+                        self.shim, "FI_SHORT=%d" % c.short if c.short else "", self.exe, " ".join(c.opts), tuple(c.data_spec))}))
         try:
             for (c, p), res in zip(self.plans, self.results):
                 for kind, text in self.judge(c, p, res):
@@ -517,12 +550,13 @@ class Check(PropertyCheck):
                                             "how": self.repro_cmd(c, p)}))
         finally:
             self.cleanup_tmp()
+        self.direct_found = len(viols)
         return viols[:12]
 
     def search(self):
         # direct() has already evaluated every clause on the sweep of this run; when something is
         # broken and nothing was found, repeat with every position of every configuration
-        if getattr(self, "searched", False) or self.tier != "quick":
+        if getattr(self, "searched", False) or self.tier != "quick" or getattr(self, "direct_found", 0):
             return []
         self.searched = True
         found = []
